@@ -94,7 +94,12 @@ def gen_large(tier, seed):
 
 
 def suites(tier, seed):
-    return [Suite("channel-close-mid-content", "machine", lambda: mg.close_mid_content_cases(Rng(seed + 91)), monitor=monitor, nontrivial=lambda c, il: True, canon=mg.canon_nondet, candidate_ok=mg.candidate_ok, exhaustive=True,
+    return [Suite("panic-drops-at-api", "api", lambda: __import__("apigen").panic_drop_cases(Rng(seed + 1212), 150 if tier == "quick" else 3000), nontrivial=lambda c, il: True, canon=__import__("apigen").canon, shards=4, timeout=60,
+                  rule="public API over the real queue ends: a Channel that goes out of scope because a panic unwinds through its owner is dropped like any other - Channel.Close is sent (and the reply awaited) - so the I/O thread never finds an abandoned handle; the other channels are used afterwards; exact diff against the Lean Api model (drop = close)"),
+            Suite("calls-at-api", "api", lambda: __import__("props.c12", fromlist=["x"]).gen(tier, seed + 3), monitor=__import__("props.c12", fromlist=["x"]).monitor,
+                  nontrivial=__import__("props.c12", fromlist=["x"]).nontrivial, canon=__import__("apigen").canon,
+                  rule="the public API over the real queue ends: every nowait variant is sent with nowait set and consumes no reply - nothing is left over in the reply queue for the next get / consume on that channel (a left-over reply makes every later call one reply behind); exact diff against the Lean Api model + the C12 oracle"),
+            Suite("channel-close-mid-content", "machine", lambda: mg.close_mid_content_cases(Rng(seed + 91)), monitor=monitor, nontrivial=lambda c, il: True, canon=mg.canon_nondet, candidate_ok=mg.candidate_ok, exhaustive=True,
                   rule="the server closes channel 1 (404 / 200) after the method, after the header, or after the first of two body frames of a delivery / get answer / returned message on it: only that channel ends (its caller and consumers get ServerClosedChannel, CloseOk is sent), a call and a delivery on channel 2 afterwards work"),
             Suite("returns-vs-listener-states", "machine", lambda: __import__("props.c13", fromlist=["x"]).gen_matrix(tier, seed),
                   monitor=monitor, nontrivial=lambda c, il: True, canon=mg.canon_nondet, candidate_ok=mg.candidate_ok, shards=4,
